@@ -9,7 +9,7 @@ CONSTANTS
   Movers = {}
   Closers = {}
   MaxMoves = 0
-  Atomic = FALSE
+  Atomic = TRUE
   Dev_IterateLiveSlice = FALSE
   Dev_SendErrorFailsWrite = FALSE
 INVARIANTS RegInvariants EventsAreWrites OneEventPerWriteAtRest NotifyAfterSave Accounting AcceptedWriteReturnsOK
